@@ -9,10 +9,15 @@ package cache_test
 // API (see c18Kinds), generated yield points, GOMAXPROCS in {1,2,4,16}, the
 // capacity (1..3) of a SHARED cache.Verifier and one seed from which every
 // key, message, scalar and entropy stream is derived.  The child process
-//  1. builds the immutable material (keys, messages, signatures) sequentially,
-//  2. executes every op once, sequentially, against PRIVATE instances of the
-//     shared objects: these are the expected results (every op is a pure
-//     function of its arguments: entropy comes from seeded readers),
+//  1. builds the immutable material sequentially: Ed25519 keys and pure/ctx/ph
+//     signatures with the STANDARD LIBRARY's crypto/ed25519, the undecodable
+//     key with verifref (inputs never come from the library under test,
+//     except sr25519 key pairs / signatures in "warm" cases),
+//  2. (warm cases) executes every op once, sequentially, against PRIVATE
+//     instances of the shared objects: these are the expected results (every
+//     op is a pure function of its arguments: entropy comes from seeded
+//     readers); cold cases do this after the first concurrent run, so that
+//     the goroutines' calls are the first ones the process makes,
 //  3. repeats: create FRESH shared instances (two ExpandedPublicKeys, the
 //     caching verifier, an sr25519 SigningContext, a Merlin base transcript),
 //     release the goroutines together and let them run their ops, then
@@ -20,9 +25,14 @@ package cache_test
 // Fresh instances matter: a lazily initialised field inside a shared object
 // would otherwise be initialised by the sequential pass and never race.
 // The parent classifies the child's output (race reports, fatal errors,
-// mismatches, worker panics).  No harness synchronisation happens between the
-// start barrier and the final join, so the race detector judges the library's
-// own synchronisation only.
+// mismatches, worker panics).  Unless the case asks for lock-step rounds, no
+// harness synchronisation happens between the start barrier and the final
+// join, so the race detector judges the library's own synchronisation only;
+// in lock-step cases the goroutines rendezvous before every op index (calls
+// of one round are still unordered among themselves), which lines the calls
+// up and opens the narrow windows that free-running goroutines rarely hit.
+// The test runs both with -race (configs race, race-purego) and without
+// instrumentation (config default: ~10x more repetitions at real timing).
 
 import (
 	"bytes"
@@ -822,9 +832,7 @@ func TestC18ChildWorkload(t *testing.T) {
 				defer func() {
 					if p := recover(); p != nil {
 						panics[g] = fmt.Sprintf("op %d: %v", cur, p)
-						if len(rounds) > 0 {
-							rounds[0].Abort()
-						}
+						cache.C18AbortBarriers(rounds)
 					}
 				}()
 				bar.Wait()
